@@ -120,6 +120,11 @@ class Kernel:
         self.listeners = []        # callables(event tuple) called on each log
         self.stop_requested = None
         self.shape = hashlib.sha1()
+        # fault "stall": a slow thread or a slow process.  With probability 1/stall_den per step a
+        # runnable actor (or every actor of its simulated process) is not scheduled for a drawn
+        # number of steps while anything else can run.
+        self.stall_den = 0
+        self.stalled = {}          # ("a", actor index) | ("p", pid) -> step until which it is held back
 
     # ----- choices
     def choose(self, n, tag):
@@ -270,6 +275,8 @@ class Kernel:
             now = self.now
             runnable = [a for a in self.actors if a.runnable(now)]
             evs = [e for e in self.kevents if not e.fired and not e.priority and e.guard()]
+            if (self.stall_den or self.stalled) and runnable:
+                runnable = self._stall(runnable, evs)
             n = len(runnable) + len(evs)
             if n == 0:
                 sleepers = [a.wake_at for a in self.actors
@@ -297,6 +304,37 @@ class Kernel:
                 self.log("kevent", name=e.name)
                 e.fn()
             self._after()
+
+    STALL_LEN = (4, 12, 40, 120, 400)
+
+    def _stall(self, runnable, evs):
+        st = self.stalled
+        if self.stall_den and len(runnable) > 1 and self.flip(1, self.stall_den, "stall"):
+            a = runnable[self.choose(len(runnable), "stall-who")]
+            whole = self.choose(2, "stall-scope")
+            dur = self.STALL_LEN[self.choose(len(self.STALL_LEN), "stall-len")]
+            key = ("p", a.pid) if whole else ("a", self.actors.index(a))
+            st[key] = self.steps + dur
+            self.count("fault:stall-process" if whole else "fault:stall-thread")
+        if not st:
+            return runnable
+        for key in [k_ for k_, until in st.items() if until <= self.steps]:
+            del st[key]
+        if not st:
+            return runnable
+        idx = {id(a): i for i, a in enumerate(self.actors)}
+        free = [a for a in runnable if ("p", a.pid) not in st and ("a", idx[id(a)]) not in st]
+        if free or evs:
+            return free
+        # only stalled actors can run: the stall is over (a stall never blocks the system)
+        st.clear()
+        return runnable
+
+    def stall_after_rare(self, pid):
+        """Called by the simulated OS when a rare condition has just opened a window in process pid."""
+        dur = self.STALL_LEN[1 + self.choose(len(self.STALL_LEN) - 1, "stall-len")]
+        self.stalled[("p", pid)] = self.steps + dur
+        self.count("fault:stall-process-after-rare-condition")
 
     def _after(self):
         for f in self.after_step:
